@@ -32,7 +32,7 @@ var bgvT = []uint64{65537, 257, 97, 12289, 786433, 0xffc001, 40961}
 func log2u(x uint64) float64 { return math.Log2(float64(x)) }
 
 func drawBGV(r *eng.Rand, idx int, tier string) (bgvCfg, bool) {
-	logNs := []int{4, 5, 6, 6, 7, 7, 8}
+	logNs := []int{4, 5, 6, 6, 7, 7, 8, 9}
 	if tier == "thorough" {
 		logNs = []int{4, 5, 6, 7, 8, 9, 10}
 	}
@@ -146,6 +146,10 @@ func runBGV(c *eng.Ctx, cfg bgvCfg) {
 			if inv {
 				need = 0
 				minLevel = ceilLog2(deg)
+				// one prime must hold t*e*(N*t/2) (a plaintext-vector product of fresh noise) with room to spare
+				if minLevel == 0 && float64(cfg.QBits) < 2*log2u(t)+float64(cfg.LogN)+14 {
+					minLevel = 1
+				}
 			}
 			if minLevel > maxLevel {
 				continue
@@ -410,7 +414,7 @@ func bgvEvalOnce(c *eng.Ctx, rnd *eng.Rand, cfg bgvCfg, params bgv.Parameters, s
 		c.Violate(sigp+"|unmapped-slot-nonzero|"+pred, fmt.Sprintf("%+v: slot %d is in no mapping but decodes to %d", job, badUnmapped, out[badUnmapped]), map[string]any{"cfg": cfg, "job": job})
 	}
 	// remaining noise budget of the result (evidence that the parameter rule leaves room)
-	if bad < 0 && badUnmapped < 0 && rnd.N(4) == 0 && params.N() <= 256 {
+	if bad < 0 && badUnmapped < 0 && (params.N() <= 64 || rnd.N(4) == 0 && params.N() <= 256) {
 		// lattigo's BGV keeps t^-1*m + e in the phase: t*phase mod Q = m + t*e is the quantity that must not wrap
 		rq := params.RingQ().AtLevel(res.Level())
 		ph := obs.Centered(rq, obs.Phase(params.Parameters, res.El(), sk))
@@ -428,6 +432,9 @@ func bgvEvalOnce(c *eng.Ctx, rnd *eng.Rand, cfg bgvCfg, params bgv.Parameters, s
 		c.Count("noise_measurements", 1)
 		// fraction of log2(Q/2) used by the phase of the result: < 1000 means the decryption is unambiguous
 		c.Max("max_bgv_phase_over_logq_permille", int64(1000*(st.MaxLog2+1)/logQ))
+		if 1000*(st.MaxLog2+1)/logQ > 850 {
+			c.Count("bgv_phase_above_850_permille", 1)
+		}
 	}
 }
 
